@@ -15,13 +15,13 @@ import Duckling.Lemmas.Seq
   * `C01_modifier_char` / `C01_modifier_key`  CTRL/ALT/GUI/Flipper modifiers with one character emit it unchanged; a listed key
                                   name in any case is accepted (ALT upper-cases it, CTRL and SHIFT keep it as written);
   * `C01_rem_dropped`            REM emits nothing when comments are off and changes nothing;
-  * `C01_altchar`                ALTCHAR with a 1–4 digit code emits the code as written;
   * `C01_legacy_repeat`          `REPEAT n` without a block emits `REPEAT n`;
+  * `C01_compile` / `C01_table_facts`   the same for `Compiler.compile`; the table facts the line theorems rest on;
   * `C01_script`                 a script all of whose lines pass through (each emitting its own lines, leaving warnings and
                                   prints alone and yielding no signal, from every state) compiles to the concatenation of those lines, in order,
                                   with no warning and no print — for scripts of any length.
-  DELAY / DEFAULT_DELAY (whose argument goes through the expression scanner) are covered by the
-  correspondence and by C04's evaluator theorems, not by a line theorem here — `partial` in that respect.
+  DELAY / DEFAULT_DELAY (whose argument goes through the expression scanner) and ALTCHAR are covered by the correspondence, by
+  C04's evaluator theorems and by `C02_every_emission_legal`, not by a line theorem here — `partial` in that respect.
 -/
 namespace Duckling.Props.C01
 open Duckling
@@ -68,6 +68,22 @@ theorem C01_text_line (child : Option ChildFn) (ctx : Ctx) (l : PreLine) (word t
   rw [stepCmd_simple child ctx l st word (some text) c hsplit hdisp hp.notBlock,
       plain_inline child ctx c hp word text l.num st hd hne hallow (by simp [verifyArgHook, hnov])]
   simp [formatArg, hnof, Arg.str]
+
+/-- the legacy form: `REPEAT n` without a block is not a loop, it emits `REPEAT n` -/
+theorem C01_legacy_repeat (ctx : Ctx) (pos : Pos) (n : Str) (st : St) (hn : ',' ∉ n) :
+    repeatPre ctx pos (some n) false st = .ok (.done { st := st, out := ["REPEAT ".toList ++ n] }) := by
+  have hp : parseLoopArg n = (none, n) := by
+    unfold parseLoopArg splitChar1
+    have h12 : n.takeWhile (· != ',') = n ∧ n.dropWhile (· != ',') = [] := by
+      induction n with
+      | nil => simp
+      | cons c cs ih =>
+        have hc : c ≠ ',' := fun e => hn (by simp [e])
+        have hcs : ',' ∉ cs := fun e => hn (by simp [e])
+        have hb : (c != ',') = true := by simpa using hc
+        simp [List.takeWhile, List.dropWhile, hb, ih hcs]
+    simp [h12.1, h12.2]
+  simp [repeatPre, hp]
 
 /-- CTRL / ALT / GUI / SYSRQ / CTRL-ALT … with a single character -/
 theorem C01_modifier_char (child : Option ChildFn) (ctx : Ctx) (l : PreLine) (word text : Str) (c : ClsDesc) (ch : Char)
